@@ -253,9 +253,13 @@ func c07MapOrder(r *core.Report) {
 func mapRangeEffectsOrdered(p *core.Prog, f *core.Func) map[*ast.RangeStmt]string { return nil }
 
 func c07ReaderOrder(r *core.Report) {
-	const rule = "C07.R2"
+	readerOrderRule(r, "C07.R2", "main.(*MultiEpoch).getGsfaReadersInEpochDescendingOrder", "main.(*MultiEpoch).getGsfaReadersInEpochDescendingOrderForSlotRange")
+}
+
+// readerOrderRule: the gsfa readers handed to the multi-epoch reader are ordered newest epoch first.
+func readerOrderRule(r *core.Report, rule string, keys ...string) {
 	p := r.Prog
-	for _, k := range []string{"main.(*MultiEpoch).getGsfaReadersInEpochDescendingOrder", "main.(*MultiEpoch).getGsfaReadersInEpochDescendingOrderForSlotRange"} {
+	for _, k := range keys {
 		f := r.Anchor(rule, k)
 		if f == nil {
 			continue
